@@ -73,6 +73,27 @@ def run_shard(spec: dict) -> ShardResult:
 
     res = ShardResult(spec)
     rng = np.random.default_rng([spec["seed"], 18, spec["index"]])
+    if spec["index"] == 0:
+        # fixed regression cases: singular matrices with incompatible data for which the direct solver
+        # returns round-off dominated values (repaired finding F27); they must be reported as errors
+        for g, bc in [
+            (pde.PolarSymGrid(1.307, 5), {"r-": {"second_derivative": 1.13}, "r+": {"type": "curvature", "value": -1.8}}),
+            (pde.PolarSymGrid(2.0, 8), {"r-": {"derivative": 0}, "r+": {"type": "curvature", "value": 1.0}}),
+            (pde.SphericalSymGrid(1.5, 6), {"r-": {"derivative": 0}, "r+": {"type": "curvature", "value": -0.7}}),
+            (pde.UnitGrid([6]), {"x-": {"derivative": 1.0}, "x+": {"derivative": 1.0}}),
+        ]:
+            case = {"grid": repr(g), "bc": bc, "rhs": "zero", "fixed_case": True}
+            res.count("fixed_unsolvable_cases")
+            try:
+                sol = pde.solve_laplace_equation(g, bc)
+            except RuntimeError:
+                continue
+            except Exception as exc:
+                res.violation(f"solver raised {type(exc).__name__}: {str(exc)[:200]}", case)
+                continue
+            residual = float(np.abs(sol.laplace(bc).data).max())
+            if not residual <= 1e-4 * (1 + float(np.abs(sol.data).max()) * 1e-12):
+                res.violation("problem without a solution returned a field instead of an error", case, residual=residual, max_abs_value=float(np.abs(sol.data).max()))
     for case_no in range(spec["cases"]):
         gspec = gen.random_grid_spec(rng, sizes=(2, 3, 4, 5, 8), max_cells=100, tame=rng.random() < 0.8)
         if gspec["cls"] in ("UnitGrid", "CartesianGrid") and len(gen.grid_shape(gspec)) == 3:
@@ -130,7 +151,11 @@ def run_shard(spec: dict) -> ShardResult:
             v = np.asarray(v.todense()).ravel()
             res.count("matrix_vs_operator_compared")
             scale = np.abs(A).max() + np.abs(b).max() + 1e-300
-            if np.abs(M - A).max() > 1e-10 * scale or np.abs(v - b).max() > 1e-10 * scale:
+            # the operator route adds and cancels stencil terms of size 4/dx^2 (e.g. curvature conditions on
+            # both sides of a two-cell axis cancel that axis completely): its round-off scales with them
+            opscale = sum(4.0 * (nn / (hi_ - lo_)) ** 2 for (lo_, hi_), nn in zip(info["bounds"], info["shape"]))
+            tol_m = 1e-10 * scale + 256 * 2.220446049250313e-16 * opscale * (1.0 + np.abs(b).max() / max(opscale, 1e-300))
+            if np.abs(M - A).max() > tol_m or np.abs(v - b).max() > tol_m:
                 k = np.unravel_index(int(np.argmax(np.abs(M - A))), A.shape)
                 res.violation(
                     "sparse matrix representation differs from the discrete Laplacian with the same conditions", case,
@@ -142,6 +167,12 @@ def run_shard(spec: dict) -> ShardResult:
             res.violation(f"_get_laplace_matrix raised {type(exc).__name__}: {str(exc)[:200]}", case)
         # ---- right-hand sides -------------------------------------------------------------
         sv = np.linalg.svd(A, compute_uv=False)
+        opscale = sum(4.0 * (nn / (hi_ - lo_)) ** 2 for (lo_, hi_), nn in zip(info["bounds"], info["shape"]))
+        if sv[0] < 1e-6 * opscale:
+            # the conditions cancel the operator (e.g. curvature on both sides of a two-cell axis): the
+            # extracted map is pure round-off and solvability cannot be decided from it
+            res.count("degenerate_zero_operator_not_judged")
+            continue
         singular = sv[-1] < 1e-9 * sv[0]
         if not singular and sv[0] / sv[-1] > 1e11:
             res.count("ill_conditioned_not_judged")
